@@ -67,7 +67,8 @@ def generate(rng, n, tier):
         t = rng.choice([v for v in nodes if v != s])
         if tw is not None and rng.random() < 0.6:     # a route that has to go from a node to its twin, or through both
             s, t = rng.choice([(tw, tw + 20), (tw + 20, tw), (s, tw + 20) if s != tw + 20 else (tw, tw + 20)])
-        cases.append({'edges': g, 'src': s, 'tgt': t, 'shared': rng.random() < 0.3, 'edit': rng.random() < 0.3, 'warm': rng.choice(nodes), 'pre': rand_pre(rng), 'ids': rng.choice(['int', 'int', 'str', 'blank'])})
+        cases.append({'edges': g, 'src': s, 'tgt': t, 'shared': rng.random() < 0.3, 'edit': rng.random() < 0.3, 'warm': rng.choice(nodes), 'pre': rand_pre(rng), 'ids': rng.choice(['int', 'int', 'str', 'blank']),
+                      'desig': rng.choice(['id', 'id', 'id', 'getnode', 'fresh', 'other'])})
     return cases
 
 
@@ -80,6 +81,20 @@ def run_impl(case):
             if r0 is not None and len(r0) > 0:
                 r0.translate(100.0, 100.0)
                 r0.scale(2.0)
+    S, T = case['src'], case['tgt']
+    if case.get('desig') in ('getnode', 'fresh', 'other'):
+        # the ends designated by Node objects, which the API accepts as well as identifiers: the network's own objects, fresh Node(id, coord) objects,
+        # or the objects of another network over the same identifiers on which a different route was computed last
+        from tracklib.core import Node, ENUCoords
+        if case['desig'] == 'getnode':
+            S, T = net.getNode(S), net.getNode(T)
+        elif case['desig'] == 'fresh':
+            S, T = Node(S, ENUCoords(pos(S)[0], pos(S)[1], 0)), Node(T, ENUCoords(pos(T)[0], pos(T)[1], 0))
+        else:
+            other = build_net(case['edges'], case.get('ids', 'int'))
+            other.shortest_path(case['tgt'], case['warm']); other.shortest_path(case['warm'], case['src'])
+            S, T = other.getNode(S), other.getNode(T)
+    case = dict(case, src=S, tgt=T)
     if case.get('shared'):          # the optional output dictionary, reused across successive calls from the same source as the API allows
         reg = {}
         net.shortest_path(case['src'], case['warm'], output_dict=reg)
